@@ -543,7 +543,9 @@ func (t *tm) text(full bool) (string, bool) {
 		return info.name + "(" + a + ", " + b + ")", true
 	}
 	if t.op == "not" {
-		if !t.a.atomic() && !strings.HasPrefix(a, "(") {
+		// in full mode a compound operand is already one parenthesised group; in minimal mode it must be
+		// wrapped as a whole (`!(a && b) <= c` would negate only the first group)
+		if !t.a.atomic() && !full && t.a.op != "not" {
 			a = "(" + a + ")"
 		}
 		return "(!" + a + ")", true
